@@ -519,7 +519,8 @@ fn cases_sixseven(c: &mut Cases, rng: &mut Rng, thorough: bool) {
             for top in 4..13usize {
                 let su = rng.below(4) as usize;
                 let other = (su + 1 + rng.below(3) as usize) % 4;
-                let sf: Vec<u32> = (0..5).map(|k| word(top - k, su)).collect();
+                let mut sf: Vec<u32> = (0..5).map(|k| word(top - k, su)).collect();
+                if top % 2 == 0 { rng.shuffle(&mut sf); }
                 // fillers: ranks far from the straight, different suit, never making a better hand
                 let fill_ranks: Vec<usize> = (0..13).filter(|r| *r + 1 < top.saturating_sub(4) || *r > top + 1).collect();
                 if fill_ranks.len() < n - 5 { continue; }
@@ -852,15 +853,28 @@ pub fn cases(prop: &str, thorough: bool, seed: u64, c: &mut Cases) {
                     let init: Vec<u32> = (0..n).map(|i| 1000 + i as u32).collect();
                     c.emit(&format!("hist{n}/every-slot"), &format!("hist {n} {} {k} 4242", join(&init)));
                 }
-                for _ in 0..(if thorough { 20_000 } else { 2_000 }) {
-                    let init: Vec<u32> = (0..n).map(|_| rng.next() as u32).collect();
+                for round in 0..(if thorough { 20_000 } else { 2_000 }) {
+                    // half of the histories draw their words from a tiny alphabet, so that equal words in
+                    // different slots, rewrites of the same word and writes of a neighbour's word all occur
+                    let small = round % 2 == 0;
+                    let word = |rng: &mut Rng| -> u32 {
+                        if small { [0u32, 1, 2, 268471337, 69634, u32::MAX][rng.below(6) as usize] } else { rng.next() as u32 }
+                    };
+                    let init: Vec<u32> = (0..n).map(|_| word(&mut rng)).collect();
                     let len = 1 + rng.below(40);
                     let mut ops = Vec::new();
                     for _ in 0..len {
                         ops.push(rng.below(n).to_string());
-                        ops.push((rng.next() as u32).to_string());
+                        ops.push(word(&mut rng).to_string());
                     }
-                    c.emit(&format!("hist{n}/seeded-history"), &format!("hist {n} {} {}", join(&init), ops.join(" ")));
+                    c.emit(if small { "hist/seeded-history-small-alphabet" } else { "hist/seeded-history" }, &format!("hist {n} {} {}", join(&init), ops.join(" ")));
+                }
+                // the same word written to every slot in turn, from distinct and from equal initial words
+                for init in [(0..n).map(|i| 500 + i as u32).collect::<Vec<u32>>(), vec![7u32; n as usize]] {
+                    let ops: Vec<String> = (0..n).flat_map(|k| [k.to_string(), "7".to_string()]).collect();
+                    c.emit("hist/same-word-to-every-slot", &format!("hist {n} {} {}", join(&init), ops.join(" ")));
+                    let ops: Vec<String> = (0..n).rev().flat_map(|k| [k.to_string(), "0".to_string()]).collect();
+                    c.emit("hist/same-word-to-every-slot", &format!("hist {n} {} {}", join(&init), ops.join(" ")));
                 }
             }
             for _ in 0..200 {
@@ -2676,14 +2690,18 @@ fn sweep_c19(seed: u64, thorough: bool) -> Sweep {
     let mut rng = Rng::new(seed ^ 0xC19);
     for n in 2..=7usize {
         for round in 0..(if thorough { 200_000 } else { 20_000 }) {
-            let init: Vec<u32> = (0..n).map(|_| rng.next() as u32).collect();
+            let small = round % 2 == 1;
+            let word = |rng: &mut Rng| -> u32 {
+                if small { [0u32, 1, 2, 268471337, 69634, u32::MAX][rng.below(6) as usize] } else { rng.next() as u32 }
+            };
+            let init: Vec<u32> = (0..n).map(|_| word(&mut rng)).collect();
             let mut model = init.clone();
             let Some(mut h) = H::mk(&init) else { continue };
             let len = if round < n { 1 } else { 1 + rng.below(40) as usize };
             let mut hist = Vec::new();
             for step in 0..len {
                 let k = if round < n { round } else { rng.below(n as u64) as usize };
-                let x = rng.next() as u32;
+                let x = word(&mut rng);
                 hist.push(format!("set_{k}({x})"));
                 h.set_named(k as u64, x);
                 model[k] = x;
